@@ -109,7 +109,7 @@ Definition txout_deser (b : bytes) : result (txout_t * bytes) :=
    consumes at least one byte, so fuel = S (length buf) is never exhausted (Proofs/Tx.v: parse_n_no_fuel). *)
 Fixpoint parse_n {A} (item : bytes -> result (A * bytes)) (fuel : nat) (n : Z) (acc : list A) (b : bytes)
   : result (list A * bytes) :=
-  if n <=? 0 then Ok (rev acc, b)
+  if n <=? 0 then Ok (rev_append acc [], b)                (* = rev acc, in linear time *)
   else match fuel with
        | O => Err FuelE
        | S fuel' => '(x, b') <- item b ;; parse_n item fuel' (n - 1) (x :: acc) b'
@@ -119,7 +119,7 @@ Fixpoint parse_n {A} (item : bytes -> result (A * bytes)) (fuel : nat) (n : Z) (
 Fixpoint parse_wits {I} (ins : list I) (acc : list (list bytes)) (b : bytes)
   : result (list (list bytes) * bytes) :=
   match ins with
-  | [] => Ok (rev acc, b)
+  | [] => Ok (rev_append acc [], b)
   | _ :: ins' => '(w, b') <- witness_deser b ;; parse_wits ins' (w :: acc) b'
   end.
 
